@@ -106,3 +106,72 @@ Proof.
   - exists 28, (mkArgs h [] [] 0 0 0 0). split; [reflexivity|vm_compute; tauto].
   - exists 29, (mkArgs h [] [] 0 0 0 0). split; [reflexivity|vm_compute; tauto].
 Qed.
+
+(* ---- the whole chain: opcode -> body parser -> request variant ------------- *)
+From MC Require Import Proofs.PDispatch.
+
+(* what the source makes of an opcode, by its own tables: the parser named by the match
+   in parse_request, then the variant named by the if-chain / match inside that parser *)
+Definition source_variant (op : N) : N :=
+  let p := source_parser_id op in
+  if p =? 8 then 29
+  else match find (fun row => fst (fst row) =? p) parser_variants with
+       | Some row =>
+           match find (fun cv => fst cv =? op) (snd (fst row)) with
+           | Some cv => snd cv
+           | None => snd row
+           end
+       | None => 0
+       end.
+
+Lemma is_one_of_in op l : is_one_of op l = true -> In op l.
+Proof.
+  unfold is_one_of. intros H. apply existsb_exists in H. destruct H as (x & Hin & E).
+  apply N.eqb_eq in E. now subst.
+Qed.
+
+(* decide the comparisons between opcode constants *)
+Ltac consts H :=
+  repeat match type of H with
+         | context[N.eqb ?a ?b] =>
+             let v := eval vm_compute in (N.eqb a b) in
+             match v with
+             | true => change (N.eqb a b) with true in H
+             | false => change (N.eqb a b) with false in H
+             end
+         end.
+
+Ltac crunch :=
+  repeat match goal with
+         | H : context[if ?c then _ else _] |- _ => destruct c eqn:?; try discriminate H
+         | H : context[match ?x with Some _ => _ | None => _ end] |- _ =>
+             destruct x as [[? ?]|] eqn:?; try discriminate H
+         end.
+
+Lemma decoded_request_is_source_variant h body req :
+  parse_body h body = DFrame req ->
+  exists a, a_h a = h /\ mk_req (source_variant (h_opcode h)) a = Some req.
+Proof.
+  intros H. pose proof H as H0. unfold parse_body in H. cbv zeta in H.
+  destruct (from_u8_is_some (h_opcode h)) eqn:F; cbn [negb] in H; [|discriminate].
+  repeat match type of H with
+         | context[is_one_of ?o ?l] =>
+             destruct (is_one_of o l) eqn:?;
+             [match goal with E : is_one_of _ _ = true |- _ => apply is_one_of_in in E; cbn [In] in E end|]
+         end;
+    try discriminate H;
+    repeat match goal with E : _ \/ _ |- _ => destruct E as [E|E] end;
+    try contradiction;
+    idtac.
+  all: try (match goal with E : _ = h_opcode _ |- _ => symmetry in E end).
+  all: try (match goal with E : h_opcode _ = _ |- _ =>
+      unfold parse_get, parse_append_prepend, parse_set, parse_delete, parse_inc_dec, parse_header_only, parse_flush in H;
+      rewrite E in H; cbv zeta in H; consts H; cbv iota in H
+    end).
+  all: crunch.
+  all: match goal with E : h_opcode _ = _ |- _ => rewrite E end; injection H as <-;
+    first
+      [ eexists (mkArgs h _ _ _ _ _ _); split; [reflexivity|vm_compute; reflexivity]
+      | eexists (mkArgs h [] [] 0 0 0 0); split; [reflexivity|vm_compute; reflexivity] ].
+  Unshelve. all: first [exact 0 | exact []].
+Qed.
